@@ -1,7 +1,7 @@
 (* C15 -- The pretty printer keeps statement-level comments; compact output has none
    (writer / printer level clauses).  Property theorems only. *)
-Require Import Base Token Tree SourceMap Writer Compile CommentSpec CommentProofs.
-Require Import Gen.Printer.
+Require Import Base Token Lexer Tree SourceMap Writer Compile Parser Grammar WriterSpec CommentSpec RelexSpec WriterProofs CommentProofs TriviaProofs.
+Require Import Gen.Tables Gen.Printer.
 
 (* compact output - code and source map - does not depend on comments at all: it is the
    compact output of the same tree with every token's trivia erased *)
@@ -45,3 +45,22 @@ Theorem C15_content_inert : forall indent semis m st cs1 cs2,
                 (cs1 = [] -> x1 = [] /\ x2 = []).
 Proof. exact comment_content_inert. Qed.
 Print Assumptions C15_content_inert.
+
+(* POSITION: comments are still in front of the same statement after re-lexing the output *)
+
+(* C15: for every program of the grammar lexed from a source text and every pretty
+   configuration that writes semicolons: lexing and parsing the formatted output gives a
+   tree whose trivia lists at the statement boundaries - in front of every statement of every
+   statement list at any depth, in front of every closing brace of a block, in front of the
+   end of input - are those of the source, item by item (comment texts verbatim, blank
+   lines, in order), up to [norm_boundaries]: a statement that shared a line with its
+   predecessor now starts a line of its own, blank lines at the very start and end of the
+   input are trimmed.  So every comment is still in front of the same statement / brace /
+   end, exactly once, in source order, and blank-line separation is kept. *)
+Theorem C15_comments_stay_in_place : forall src toks p indent m,
+  tokenize src = Some toks -> strings_stable toks = true -> literals_trim_safe toks = true ->
+  m_program p toks = true -> wf_program p = true -> blank_str indent ->
+  exists r, reparse (cfg_pretty indent true m) p = Some r /\
+            norm_boundaries (boundary_trivia (pr_program r)) = norm_boundaries (boundary_trivia p).
+Proof. exact boundary_trivia_preserved. Qed.
+Print Assumptions C15_comments_stay_in_place.
